@@ -19,8 +19,11 @@ import (
 	"sync"
 	"time"
 
+	pb "go.etcd.io/etcd/api/v3/etcdserverpb"
 	clientv3 "go.etcd.io/etcd/client/v3"
 	"go.etcd.io/etcd/server/v3/embed"
+	"google.golang.org/grpc"
+	"google.golang.org/grpc/credentials/insecure"
 	metav1 "k8s.io/apimachinery/pkg/apis/meta/v1"
 
 	kafscalev1alpha1 "github.com/KafScale/platform/api/v1alpha1"
@@ -48,6 +51,52 @@ func (k *hookKV) take() func() {
 	return h
 }
 
+// fault = one injected transient etcd error of one call, carried by the call's context (so that the
+// broker's watcher goroutine, which shares the KV, is never hit): the k-th Get of the snapshot key,
+// the k-th Delete or the k-th txn commit issued under that context fails; post = the operation is
+// executed by etcd and only its answer is lost.
+type faultCtxKey struct{}
+
+type fault struct {
+	kind  string // get | del | txn
+	k     int
+	post  bool
+	mu    sync.Mutex
+	seen  int
+	fired bool
+}
+
+var errInjected = errors.New("etcdserver: request timed out (injected by the C21 harness)")
+
+func (f *fault) hit(kind string) bool {
+	if f == nil || f.kind != kind {
+		return false
+	}
+	f.mu.Lock()
+	defer f.mu.Unlock()
+	n := f.seen
+	f.seen++
+	if n == f.k && !f.fired {
+		f.fired = true
+		return true
+	}
+	return false
+}
+
+func faultOf(ctx context.Context) *fault {
+	f, _ := ctx.Value(faultCtxKey{}).(*fault)
+	return f
+}
+
+func (k *hookKV) Get(ctx context.Context, key string, opts ...clientv3.OpOption) (*clientv3.GetResponse, error) {
+	if key == snapshotKey {
+		if f := faultOf(ctx); f.hit("get") {
+			return nil, errInjected
+		}
+	}
+	return k.KV.Get(ctx, key, opts...)
+}
+
 func (k *hookKV) Put(ctx context.Context, key, val string, opts ...clientv3.OpOption) (*clientv3.PutResponse, error) {
 	if key == snapshotKey {
 		if h := k.take(); h != nil {
@@ -63,14 +112,25 @@ func (k *hookKV) Delete(ctx context.Context, key string, opts ...clientv3.OpOpti
 	if h := k.take(); h != nil {
 		h()
 	}
+	if f := faultOf(ctx); f.hit("del") {
+		if f.post {
+			if _, err := k.KV.Delete(ctx, key, opts...); err != nil {
+				return nil, err
+			}
+		}
+		return nil, errInjected
+	}
 	return k.KV.Delete(ctx, key, opts...)
 }
 
-func (k *hookKV) Txn(ctx context.Context) clientv3.Txn { return &hookTxn{Txn: k.KV.Txn(ctx), k: k} }
+func (k *hookKV) Txn(ctx context.Context) clientv3.Txn {
+	return &hookTxn{Txn: k.KV.Txn(ctx), k: k, f: faultOf(ctx)}
+}
 
 type hookTxn struct {
 	clientv3.Txn
 	k *hookKV
+	f *fault
 }
 
 func (t *hookTxn) If(cs ...clientv3.Cmp) clientv3.Txn  { t.Txn = t.Txn.If(cs...); return t }
@@ -80,7 +140,68 @@ func (t *hookTxn) Commit() (*clientv3.TxnResponse, error) {
 	if h := t.k.take(); h != nil {
 		h()
 	}
+	if t.f.hit("txn") {
+		if t.f.post {
+			if _, err := t.Txn.Commit(); err != nil {
+				return nil, err
+			}
+		}
+		return nil, errInjected
+	}
 	return t.Txn.Commit()
+}
+
+// kvRelay is an etcd KV endpoint of its own (gRPC) that forwards every request to the embedded etcd:
+// the operator's PublishMetadataSnapshot builds its etcd client internally from the endpoint list, so
+// the only seam between its Get and its Txn is the wire.  beforeTxn (one-shot) runs right before the
+// next transaction is forwarded, i.e. after the operator has read and merged the snapshot.
+type kvRelay struct {
+	pb.UnimplementedKVServer
+	backend   pb.KVClient
+	mu        sync.Mutex
+	beforeTxn func()
+}
+
+func (r *kvRelay) Range(ctx context.Context, in *pb.RangeRequest) (*pb.RangeResponse, error) {
+	return r.backend.Range(ctx, in)
+}
+func (r *kvRelay) Put(ctx context.Context, in *pb.PutRequest) (*pb.PutResponse, error) {
+	return r.backend.Put(ctx, in)
+}
+func (r *kvRelay) DeleteRange(ctx context.Context, in *pb.DeleteRangeRequest) (*pb.DeleteRangeResponse, error) {
+	return r.backend.DeleteRange(ctx, in)
+}
+func (r *kvRelay) Txn(ctx context.Context, in *pb.TxnRequest) (*pb.TxnResponse, error) {
+	r.mu.Lock()
+	h := r.beforeTxn
+	r.beforeTxn = nil
+	r.mu.Unlock()
+	if h != nil {
+		h()
+	}
+	return r.backend.Txn(ctx, in)
+}
+
+func (r *kvRelay) arm(h func()) {
+	r.mu.Lock()
+	r.beforeTxn = h
+	r.mu.Unlock()
+}
+
+func startRelay(etcdEndpoint string) (*kvRelay, string) {
+	conn, err := grpc.NewClient(strings.TrimPrefix(etcdEndpoint, "http://"), grpc.WithTransportCredentials(insecure.NewCredentials()))
+	if err != nil {
+		panic(err)
+	}
+	lis, err := net.Listen("tcp", "127.0.0.1:0")
+	if err != nil {
+		panic(err)
+	}
+	r := &kvRelay{backend: pb.NewKVClient(conn)}
+	srv := grpc.NewServer()
+	pb.RegisterKVServer(srv, r)
+	go func() { _ = srv.Serve(lis) }()
+	return r, lis.Addr().String()
 }
 
 const probeKey = snapshotKey + "-verif-probe"
@@ -153,6 +274,8 @@ type world struct {
 	waiting  [][]clientv3.WatchResponse // notifications that arrived while the watcher loop was busy (blocked on persistMu)
 	probeSeq int
 	endpoints []string
+	relay       *kvRelay // the operator's etcd endpoint
+	opEndpoints []string
 	admin     *clientv3.Client
 	clients   []*clientv3.Client
 	kvs       []*hookKV
@@ -390,6 +513,41 @@ type call struct {
 	topic  int
 	n      int
 	crd    [][2]int
+	fail   *fault // injected etcd error of this call (nil = none)
+}
+
+// parseFail: fail=get<k> | fail=del0:pre|post | fail=txn<k>:pre|post
+func parseFail(tok string) (*fault, bool) {
+	spec := strings.TrimPrefix(tok, "fail=")
+	mode := ""
+	if i := strings.IndexByte(spec, ':'); i >= 0 {
+		spec, mode = spec[:i], spec[i+1:]
+	}
+	if len(spec) < 4 {
+		return nil, false
+	}
+	kind := spec[:3]
+	k, err := strconv.Atoi(spec[3:])
+	if err != nil || k < 0 {
+		return nil, false
+	}
+	switch kind {
+	case "get":
+		if mode != "" {
+			return nil, false
+		}
+	case "del":
+		if k != 0 || (mode != "pre" && mode != "post") {
+			return nil, false
+		}
+	case "txn":
+		if mode != "pre" && mode != "post" {
+			return nil, false
+		}
+	default:
+		return nil, false
+	}
+	return &fault{kind: kind, k: k, post: mode == "post"}, true
 }
 
 // parseCalls parses "<b> create <t> <n>" / "<b> grow <t> <n>" / "<b> delete <t>" / "op <crd>" groups
@@ -402,6 +560,14 @@ func parseCalls(f []string) ([]call, bool) {
 			return false
 		}
 		var c call
+		if n := len(cur); strings.HasPrefix(cur[n-1], "fail=") {
+			f, ok := parseFail(cur[n-1])
+			if !ok || n == 1 || cur[0] == "op" || cur[0] == "late" {
+				return false
+			}
+			c.fail = f
+			cur = cur[:n-1]
+		}
 		if cur[0] == "op" {
 			if len(cur) != 2 {
 				return false
@@ -488,7 +654,9 @@ func parseCrd(s string) ([][2]int, bool) {
 	return out, true
 }
 
-func (w *world) publish(crd [][2]int) string {
+// publish runs the real operator publish through the relay; `inject` (complete broker calls / late
+// deliveries) run between the operator's Get (+ merge) and its first Txn.
+func (w *world) publish(crd [][2]int, inject []call, injRes *[]string) string {
 	one := int32(1)
 	cluster := &kafscalev1alpha1.KafscaleCluster{
 		ObjectMeta: metav1.ObjectMeta{Name: "c", Namespace: "ns"},
@@ -502,15 +670,29 @@ func (w *world) publish(crd [][2]int) string {
 		})
 	}
 	meta := operator.BuildClusterMetadata(cluster, topics)
+	var hookPanic interface{}
+	if len(inject) > 0 {
+		w.relay.arm(func() {
+			defer func() { hookPanic = recover() }()
+			for _, ic := range inject {
+				*injRes = append(*injRes, w.exec(ic, nil, nil, -1))
+			}
+		})
+	}
 	ctx, cancel := context.WithTimeout(context.Background(), 20*time.Second)
 	defer cancel()
-	return errName(operator.PublishMetadataSnapshot(ctx, w.endpoints, meta))
+	res := errName(operator.PublishMetadataSnapshot(ctx, w.opEndpoints, meta))
+	w.relay.arm(nil)
+	if hookPanic != nil {
+		panic(hookPanic)
+	}
+	return res
 }
 
 // exec runs one complete call; `inject` (if any) run between its read+mutation and its first write.
 func (w *world) exec(c call, inject []call, injRes *[]string, outer int) string {
 	if c.broker == -1 {
-		return w.publish(c.crd)
+		return w.publish(c.crd, nil, nil)
 	}
 	if c.kind == "late" {
 		if w.deliver(c.broker, c.broker == outer) {
@@ -529,6 +711,9 @@ func (w *world) exec(c call, inject []call, injRes *[]string, outer int) string 
 	}
 	ctx, cancel := context.WithTimeout(context.Background(), 20*time.Second)
 	defer cancel()
+	if c.fail != nil {
+		ctx = context.WithValue(ctx, faultCtxKey{}, c.fail)
+	}
 	st := w.stores[c.broker]
 	var err error
 	switch c.kind {
@@ -590,12 +775,31 @@ func (w *world) do(f []string) (out string) {
 			return "late delivered " + w.dumpAll()
 		}
 		return "late none " + w.dumpAll()
-	case f[0] == "publish" && len(f) == 2:
+	case f[0] == "publish" && (len(f) == 2 || (len(f) > 3 && f[2] == "with")):
 		crd, ok := parseCrd(f[1])
 		if !ok {
 			return "bad-op"
 		}
-		return "publish res=" + w.publish(crd) + " " + w.dumpAll()
+		var inject []call
+		if len(f) > 3 {
+			inject, ok = parseCalls(f[3:])
+			if !ok {
+				return "bad-op"
+			}
+			for _, c := range inject {
+				if c.broker == -1 {
+					return "bad-op"
+				}
+			}
+		}
+		var injRes []string
+		res := w.publish(crd, inject, &injRes)
+		w.settle()
+		inj := "-"
+		if len(injRes) > 0 {
+			inj = strings.Join(injRes, ",")
+		}
+		return "publish res=" + res + " inj=" + inj + " " + w.dumpAll()
 	case f[0] == "live" && len(f) == 1:
 		return w.live()
 	case f[0] == "stress" && len(f) == 3:
@@ -728,7 +932,7 @@ func (w *world) stress(seed uint64, n int) string {
 					crd = append(crd, [2]int{t, 1 + int(r.next()%3)})
 				}
 			}
-			w.publish(crd)
+			w.publish(crd, nil, nil)
 		}
 	}()
 	wg.Wait()
@@ -791,6 +995,8 @@ func main() {
 		panic(err)
 	}
 	w.admin = admin
+	relay, addr := startRelay(w.endpoints[0])
+	w.relay, w.opEndpoints = relay, []string{addr}
 	w.reset()
 	out := bufio.NewWriter(os.Stdout)
 	sc := bufio.NewScanner(os.Stdin)
